@@ -82,6 +82,7 @@ RSpecial == {Re!Alt(Re!Cat(Re!Chr(97), Re!Chr(98)), Re!Chr(97)), Re!Alt(Re!Chr(9
 Regexes == RAtoms \cup RUnary \cup RBinary \cup RSpecial
 RStr3 == UNION {[1..k -> {97, 98, 32}] : k \in 0..3}
 RStrings == {VS(s) : s \in RStr3} \cup {VS(<<32, 97, 32>>), VS(<<97, 97, 98, 32, 97, 98>>), VS(<<98, 97, 46, 97, 98>>), VS(<<97, 98, 97, 98, 97>>), VS(<<32, 32, 97, 32, 32>>)}
+RStringsI == {VS(<<65, 66>>), VS(<<97, 66>>), VS(<<65, 98, 32>>), VS(<<98>>), VS(<<66, 65, 98, 97>>)}
 Reps == {VS(<<>>), VS(<<120>>), VS(<<91, 36, 49, 93>>), VS(<<36, 49, 36, 49>>), VS(<<60, 92, 36, 62>>), VS(<<36>>)}        \* "" x [$1] $1$1 <\$> $
 CR(f, args, re) == [fn |-> f, args |-> args, re |-> re]
 RegexCases ==
@@ -90,6 +91,9 @@ RegexCases ==
   \cup {CR("replace", <<s, VS(Re!Render(r)), rep>>, r) : r \in Regexes, s \in RStrings, rep \in Reps}
   \cup {CR("matches", <<s, VS(Re!Render(r)), VS(<<>>)>>, r) : r \in RSpecial, s \in {VS(<<97, 98>>), VS(<<98>>)}}
   \cup {CR("replace", <<s, VS(Re!Render(r)), VS(<<120>>), VS(<<>>)>>, r) : r \in RSpecial, s \in {VS(<<97, 98>>), VS(<<98>>)}}
+  \cup {CR("matches", <<s, VS(Re!Render(r)), fl>>, r) : r \in RAtoms \cup RSpecial \cup {Re!Chr(66), Re!Cat(Re!Chr(65), Re!Chr(98))}, s \in RStringsI, fl \in {VS(<<105>>), VS(<<>>)}}
+  \cup {CR("matches", <<s, VS(Re!Render(r))>>, r) : r \in {Re!Chr(66), Re!Cat(Re!Chr(65), Re!Chr(98))}, s \in RStringsI}
+  \cup {CR("replace", <<s, VS(Re!Render(r)), rep, fl>>, r) : r \in RAtoms \cup RSpecial, s \in RStringsI, rep \in {VS(<<120>>), VS(<<91, 36, 49, 93>>)}, fl \in {VS(<<105>>), VS(<<>>)}}
   \cup {CR(f, <<x, VS(<<97>>)>>, Re!Chr(97)) : f \in {"matches", "split"}, x \in {VNull, VN(1, 0)}}
   \cup {CR("replace", <<VS(<<97>>), VS(<<97>>), x>>, Re!Chr(97)) : x \in {VNull, VN(1, 0)}}
 ASSUME \A c \in RegexCases : PrintT(<<"CASE", ToJson(c)>>)
